@@ -68,6 +68,18 @@ CLAIMS = {
          "Fault-instant exploration: 1..6 compressed/archived journal and evtx sources extracted concurrently, extraction and temp-file registration stretched through hooks, one unsignalled and 4..16 signalled runs per case with instants uniform over the run, dense in the first 6 ms and just before the end; after exit the private TMPDIR must be empty and exit status 0/1 (or death by SIGINT before the handler exists); a signalled run must not simply run on (decidable for stretched runs).",
          "Trusts: hooks for stretching; instants controlled to ~50-300 us; crash points sampled not enumerated. Known finding: interrupt before the first delivered message waits for the next datum.",
          "DESIGN.md section 4 C18"),
+ "C07": ("property-based testing / fault injection (proptest) plus a stratified small-scope sweep: generated faults on valid files of every kind, robustness + neighbour-integrity oracle through the real binary",
+         "Fault exploration: a deterministic sweep (every cut and single damaged byte in the first and last 16 bytes, appended bytes, for small text and record files in 9 container variants) and thousands of generated (base file, fault) pairs over text, accounting records, shipped evtx/journals and their compressed/archived forms, random bytes and name/content mismatches, alone or beside 1..3 valid sources at a generated position; exit status must be 0/1 without signal or panic, the run must end, and the neighbours' lines must be complete and in reference order.",
+         "Trusts: neighbour attribution through -n prefixes; the 120 s watchdog. A libFuzzer campaign over the readers is the thorough tier's complement (harness/fuzz).",
+         "DESIGN.md section 4 C07"),
+ "C09": ("property-based testing (proptest) with a differential oracle against an independent reader (journalctl --file -o export)",
+         "Exploration over the available input space: 4 journal files x 10 renderings x windows relative to actual entry times (incl. exact microsecond equality and duplicated times) x containers x -t values; entry count and order must equal journalctl's listing filtered A<=t<=B, export entries must be exactly the stored fields, cat the MESSAGE text, other renderings must carry the MESSAGE, containers must print the same as the plain file.",
+         "Trusts: journalctl (systemd 252) as the independent reader; timestamps of short* renderings are not compared (Issue #101). Only shipped journals (no writer available).",
+         "DESIGN.md section 4 C09"),
+ "C10": ("property-based testing (proptest) with a differential oracle against an independent reader (evtx crate, single-threaded)",
+         "Exploration over the available input space: 2 shipped evtx files x windows relative to actual record times x containers x block sizes; the printed (EventRecordID, TimeCreated) sequence must equal the independent listing stable-sorted by creation time and filtered A<=t<=B.",
+         "Trusts: the evtx crate run single-threaded as independent reader. Only shipped evtx files (no writer available).",
+         "DESIGN.md section 4 C10"),
 }
 PENDING_REASON = "check not built yet in this session (planned in DESIGN.md section 4); not claimed until its check exists and is silent on the unchanged tree"
 
